@@ -6,5 +6,6 @@ ids="$@"; [ -z "$ids" ] && ids=$(ls seeded)
 for id in $ids; do
   prop=$(python3 -c "import json;m=json.load(open('seeded/$id/meta.json'));print(m.get('detect_with') or m['property'])")
   out=$(driver/try_patch.sh /verif/seeded/$id/patch.diff $prop quick 2>&1)
-  if echo "$out" | grep -q "^VIOLATION property=$prop"; then echo "$id $prop CAUGHT"; else echo "$id $prop MISSED"; echo "$out" | tail -3; fi
+  tol=$(python3 -c "import json;print(json.load(open('seeded/$id/meta.json')).get('tolerated',False))")
+  if echo "$out" | grep -q "^VIOLATION property=$prop"; then echo "$id $prop CAUGHT"; elif [ "$tol" = "True" ]; then echo "$id $prop TOLERATED-BY-DESIGN"; else echo "$id $prop MISSED"; echo "$out" | tail -3; fi
 done
